@@ -50,8 +50,12 @@ type world struct {
 }
 
 func (wd *world) ev(thread, call, phase string, ok bool, tmo int64) int {
-	wd.log = append(wd.log, event{len(wd.log), thread, call, phase, ok, vrt.Clock(), tmo})
-	return len(wd.log) - 1
+	var n int
+	vrt.Own(func() {
+		wd.log = append(wd.log, event{len(wd.log), thread, call, phase, ok, vrt.Clock(), tmo})
+		n = len(wd.log) - 1
+	})
+	return n
 }
 
 type env struct {
